@@ -401,6 +401,11 @@ class Executor:
     def iter_domain(self, st, v, node):
         """Turn an evaluated iterable into python list (concrete) or IterDom."""
         v = self.deref(st, v)
+        h = getattr(self.reg, 'iter_hook', None)
+        if h is not None:
+            r = h(self, st, v, node)
+            if r is not None:
+                return r
         if isinstance(v, (list, tuple)):
             return list(v)
         if isinstance(v, PyList):
